@@ -506,12 +506,12 @@ class Engine(ExprMixin, CallMixin):
             saved_flag = self.finally_kind
             self.finally_kind = o.kind
             s2 = o.st.copy()
-            s2.env["__exit_kind__"] = o.kind
+            s2.env["exiting_by_exception"] = SV(z3.BoolVal(o.kind == "raise"), T.Bool)  # ghost: how the try block ended
             fouts = self.exec_block(stmt.finalbody, s2)
             self.finally_kind = saved_flag
             for fo in fouts:
                 if fo.kind == "normal":
-                    fo.st.env.pop("__exit_kind__", None)
+                    fo.st.env.pop("exiting_by_exception", None)
                     final.append(Outcome(o.kind, fo.st, o.value, o.exc))
                 else:
                     final.append(fo)
